@@ -237,6 +237,12 @@ def usage_queries_consult_the_map(ctx, rid="R4"):
         if not cand or not rets:
             ctx.undecided(o, "no lookup / return found")
             continue
+        dropped = [n for c in look if (c.callee or c.decl or "").endswith("Iterator::sum") for n in narrowing_calls(fd, c, 0)]
+        if dropped:
+            ctx.bad(o, "the vehicle types summed over at %s go through %s(): the count stops at / skips some types, so a depot is taken to host "
+                    "fewer vehicles than it does and its total capacity is exceeded" % (dropped[0].line(), (dropped[0].callee or dropped[0].decl or "").split("::")[-1]),
+                    loc=dropped[0].line())
+            continue
         ok = all(any(fd.cfg.instr_dominates(c, r) for c in cand) for r in rets)
         ctx.decide(o, ok, "the lookup dominates every return",
                    "%s has a result that is produced without consulting the usage map (a special case in front of the lookup): the "
